@@ -521,6 +521,7 @@ func main() {
 	si, sn, worker := ev.Shard()
 	if !worker {
 		transport()
+		crowd()
 		r.Fork(len(cfgs), nil, nil)
 		if exe := os.Getenv("VERIF_RACE_EXE"); exe != "" {
 			rctx, rcancel := context.WithTimeout(context.Background(), 5*time.Minute) // harness safety only
